@@ -242,3 +242,22 @@ sub('statistics/generic/mixture_em.go','''      if meta != nil {
       if meta != nil {
         gammaTmp.AT(i).Add(gammaTmp.AT(i), meta.ConstAt(l))
       }''')
+# decoder: header set by a helper function that receives the object
+sub('matrix_dense_real64.go','''  obj.rows = r.Rows
+  obj.rowMax = r.Rows
+  obj.rowOffset = 0
+  obj.cols = r.Cols
+  obj.colMax = r.Cols
+  obj.colOffset = 0
+  obj.transposed = false
+  obj.initTmp()
+  return nil
+}''','''  benignSetHeader(obj, r.Rows, r.Cols)
+  obj.initTmp()
+  return nil
+}
+func benignSetHeader(m *DenseReal64Matrix, rows, cols int) {
+  m.rows, m.rowMax, m.rowOffset = rows, rows, 0
+  m.cols, m.colMax, m.colOffset = cols, cols, 0
+  m.transposed = false
+}''')
